@@ -36,3 +36,6 @@ pub mod f8 {
 pub mod f7 {
     include!("f7_init.rs");
 }
+pub mod i1 {
+    include!("i1_isolation.rs");
+}
